@@ -672,3 +672,6 @@ PROPS["C10"]["claim"] += (" generated_SendCommand_busy_then_final (Proofs/EndToE
 PROPS["C17"]["proofs"] = PROPS["C17"]["proofs"] + ["Bmc.Proofs.EndToEnd.ReceiverC17"]
 PROPS["C17"]["claim"] += (" generated_*_ignores_receiver (Proofs/EndToEnd/ReceiverC17.lean; 25 decoders): for EVERY input (valid, truncated, garbage, any capacity) and ANY two previous contents of the receiver struct, "
                           "DecodeFromBytes AS TRANSLATED gives the same outcome and the same decoded value.")
+
+PROPS["C02"]["claim"] += (" hsRun_incorrect_password / generated_newV2Session_incorrect_password (same file): a RAKP Message 2 with tag 0 and status OK whose AuthCode is not the keyed hash of the exchange under the caller's "
+                          "password makes newV2Session AS TRANSLATED return ErrIncorrectPassword — never a session, never a generic error — with no RAKP Message 3 sent.")
